@@ -3,7 +3,8 @@ NEXT Next
 CONSTANTS
   MaxScen = 3
   FullUpTo = 2
-  EmitMod = 13
+  EmitAllUpTo = 1
+  EmitMod = 11
 INVARIANT ClausesHold
 INVARIANT RepairedHolds
 INVARIANT KFNarrow
